@@ -1,9 +1,11 @@
 import PromVerif.Drv.C13
+import PromVerif.Drv.Expo
 namespace PromVerif.Drv
 
 def dispatch (m : String) (args : List String) : String :=
   match m with
   | "c13" => C13.handle args
+  | "expo" => Expo.handle args
   | _ => "err unknown-module"
 
 end PromVerif.Drv
